@@ -61,18 +61,18 @@ theorem authentic_rc {P : Params} {log : List Msg} {m : Msg} (h : authentic P lo
 /-- a stored prepare is reflected in the trace -/
 theorem prepOK_of_valid {P : Params} {T : List (Ev (Op P))} {log : List Msg} (hlog : ∀ m ∈ log, LogOK P T m)
     (i : Op P) (m : Msg) (h r root : Nat) (hv : validSignedPrepare (P.cfg i) m.toBase h r root = .ok ())
-    (ha : authentic P log m = true) : PrepOK P T m ∧ m.round = r ∧ m.root = root := by
+    (ha : authentic P log m = true) (hid : m.ident = ownIdent) : PrepOK P T m ∧ m.round = r ∧ m.root = root := by
   obtain ⟨ht, _, hr, hroot, hso, sg, hsg, hc⟩ := validSignedPrepare_ok _ _ _ _ _ _ hv
   refine ⟨⟨sg, hsg, hc, ?_⟩, hr, hroot⟩
   intro j hj hjs
   have hmem : opId j ∈ m.toBase.signers := by rw [hsg, hjs]; simp
-  exact (backed_event hlog (authentic_base ha) hso j hj hmem).2.1 ht
+  exact (backed_event hlog (authentic_base ha) hso hid j hj hmem).2.1 ht
 
 /-- a validated decided message / commit with verified signature is reflected in the trace -/
 theorem commitOK_of {P : Params} {T : List (Ev (Op P))} {log : List Msg} (hlog : ∀ m ∈ log, LogOK P T m)
     (m : Msg) (ht : m.type = tCommit) (hso : m.sigOk = true) (hnd : m.signers.Nodup)
-    (hc : ∀ s ∈ m.signers, s ∈ P.committee) (ha : authentic P log m = true) : CommitOK P T m :=
-  ⟨hnd, hc, fun j hj hmem => (backed_event hlog (authentic_base ha) hso j hj hmem).2.2.1 ht⟩
+    (hc : ∀ s ∈ m.signers, s ∈ P.committee) (ha : authentic P log m = true) (hid : m.ident = ownIdent) : CommitOK P T m :=
+  ⟨hnd, hc, fun j hj hmem => (backed_event hlog (authentic_base ha) hso hid j hj hmem).2.2.1 ht⟩
 
 /-- a signer list of quorum size inside the committee contains a correct operator -/
 theorem exists_honest_signer (P : Params) (hP : P.Valid) (l : List Nat) (hc : ∀ s ∈ l, s ∈ P.committee)
@@ -90,13 +90,13 @@ structure CertFacts (P : Params) (T : List (Ev (Op P))) (m : Msg) : Prop where
   honest : ∃ j : Op P, P.honest j = true ∧ Ev.K j m.round m.root ∈ T
 
 theorem cert_facts {P : Params} (hP : P.Valid) {T : List (Ev (Op P))} {log : List Msg} (hlog : ∀ m ∈ log, LogOK P T m)
-    (i : Op P) (m : Msg) (hv : validateDecided (P.cfg i) m = .ok ()) (ha : authentic P log m = true) :
-    CertFacts P T m := by
+    (i : Op P) (m : Msg) (hv : validateDecided (P.cfg i) m = .ok ()) (ha : authentic P log m = true)
+    (hid : m.ident = ownIdent) : CertFacts P T m := by
   obtain ⟨ht, hq, hnd, _, hso, hc, hh⟩ := validateDecided_ok _ m () hv
-  have hok := commitOK_of hlog m ht hso hnd hc ha
+  have hok := commitOK_of hlog m ht hso hnd hc ha hid
   have hq' : P.quorum ≤ uniqueCount m.signers := by rw [uniqueCount_of_nodup _ hnd]; exact hq
   obtain ⟨j, hj, hmem⟩ := exists_honest_signer P hP m.signers hc hq'
-  have hb := backed_event hlog (authentic_base ha) hso j hj hmem
+  have hb := backed_event hlog (authentic_base ha) hso hid j hj hmem
   exact ⟨hok, hh, hb.1, hq', j, hj, hb.2.2.1 ht⟩
 
 /-! ### the coupled cases: proposal acceptance, decided-message adoption, instance creation -/
@@ -316,15 +316,15 @@ theorem valOk_ne_zero (cfg : Cfg) (v : Nat) (h : cfg.valOk v = true) : v ≠ 0 :
 
 theorem commitOK_of_validateCommit {P : Params} {T : List (Ev (Op P))} {log : List Msg} (hlog : ∀ m ∈ log, LogOK P T m)
     (i : Op P) (m : Msg) (h r : Nat) (p : Msg) (hv : validateCommit (P.cfg i) m.toBase h r p = .ok ())
-    (ha : authentic P log m = true) : CommitOK P T m ∧ m.round = r ∧ p.root = m.root := by
+    (ha : authentic P log m = true) (hid : m.ident = ownIdent) : CommitOK P T m ∧ m.round = r ∧ p.root = m.root := by
   obtain ⟨ht, hso, hc, hnd, _, hr, hroot, _, _⟩ := validateCommit_ok _ _ _ _ _ _ hv
-  exact ⟨commitOK_of hlog m ht hso hnd hc ha, hr, hroot⟩
+  exact ⟨commitOK_of hlog m ht hso hnd hc ha hid, hr, hroot⟩
 
 theorem nodeInvO_step {P : Params} (hP : P.Valid) {T : List (Ev (Op P))} {log : List Msg}
     (hlog : ∀ m ∈ log, LogOK P T m)
     (H0 : ∀ (j : Op P) (r v : Nat), P.honest j = true → Ev.K j r v ∈ T → 1 ≤ r)
     (i : Op P) {os os' : Option State} {bs : List Msg} {evs : List (Ev (Op P))}
-    (hst : NStep (P.cfg i) P.height (fun m => authentic P log m = true) i os os' bs evs)
+    (hst : NStep (P.cfg i) P.height (fun m => authentic P log m = true ∧ m.ident = ownIdent) i os os' bs evs)
     (hinv : NodeInvO P T i os) : NodeInvO P (T ++ evs) i os' := by
   cases hst with
   | idle h1 h2 h3 => rw [h1, h3, List.append_nil]; exact hinv
@@ -335,19 +335,19 @@ theorem nodeInvO_step {P : Params} (hP : P.Valid) {T : List (Ev (Op P))} {log : 
   | createDecided m ha h0 hv hh h1 h2 h3 =>
     rw [h0] at hinv
     rw [h1, h3]
-    have cf := cert_facts hP hlog i m hv ha
+    have cf := cert_facts hP hlog i m hv ha.1 ha.2
     obtain ⟨j, hj, hK⟩ := cf.honest
     exact nodeInv_createDecided hinv m cf.ok (H0 j _ _ hj hK)
   | adopt s m ha h0 hd hv hh h1 h2 h3 =>
     rw [h0] at hinv
     rw [h1, h3]
-    have cf := cert_facts hP hlog i m hv ha
+    have cf := cert_facts hP hlog i m hv ha.1 ha.2
     obtain ⟨j, hj, hK⟩ := cf.honest
     exact NodeInv.step_adopt hinv m hd cf.ok (H0 j _ _ hj hK)
   | more s m ha h0 hd hv hh h1 h2 h3 =>
     rw [h0] at hinv
     rw [h1, h3, List.append_nil]
-    exact NodeInv.upd_commit hinv m (cert_facts hP hlog i m hv ha).ok
+    exact NodeInv.upd_commit hinv m (cert_facts hP hlog i m hv ha.1 ha.2).ok
   | prop s m ha h0 hv hnew h1 h2 h3 =>
     rw [h0] at hinv
     rw [h1, h3]
@@ -355,7 +355,7 @@ theorem nodeInvO_step {P : Params} (hP : P.Valid) {T : List (Ev (Op P))} {log : 
   | prep s m p ha h0 hacc hv h1 h2 h3 =>
     rw [h0] at hinv
     rw [h1, h3, List.append_nil]
-    obtain ⟨hok, hr, hroot⟩ := prepOK_of_valid hlog i m _ _ _ hv ha
+    obtain ⟨hok, hr, hroot⟩ := prepOK_of_valid hlog i m _ _ _ hv ha.1 ha.2
     have hinv' : NodeInv P T i s := hinv
     refine NodeInv.upd_prepare hinv' m hok ?_
     by_cases hpr : p.round = s.round
@@ -364,7 +364,7 @@ theorem nodeInvO_step {P : Params} (hP : P.Valid) {T : List (Ev (Op P))} {log : 
   | prepQ s m p ha h0 hacc hv hq h1 h2 =>
     rw [h0] at hinv
     rw [h1]
-    obtain ⟨hok, hr, hroot⟩ := prepOK_of_valid hlog i m _ _ _ hv ha
+    obtain ⟨hok, hr, hroot⟩ := prepOK_of_valid hlog i m _ _ _ hv ha.1 ha.2
     have hinv' : NodeInv P T i s := hinv
     have hkind : PrepKind T i s m := by
       by_cases hpr : p.round = s.round
@@ -380,14 +380,14 @@ theorem nodeInvO_step {P : Params} (hP : P.Valid) {T : List (Ev (Op P))} {log : 
   | com s m p ha h0 hacc hv h1 h2 h3 =>
     rw [h0] at hinv
     rw [h1, h3, List.append_nil]
-    exact NodeInv.upd_commit hinv m (commitOK_of_validateCommit hlog i m _ _ p hv ha).1
+    exact NodeInv.upd_commit hinv m (commitOK_of_validateCommit hlog i m _ _ p hv ha.1 ha.2).1
   | comQ s m p agg ha h0 hacc hv hq hagg h1 h2 h3 =>
     rw [h0] at hinv
     rw [h1, h3]
     have hinv' : NodeInv P T i s := hinv
     obtain ⟨_, _, _, _, _, _, _, _, _, hfd, _⟩ := aggregateCommitMsgs_spec _ _ _ hagg
     have hE := NodeInv.ext hinv' [Ev.D i agg.round agg.fullData] (by simp) (by simp) (by simp) (by simp)
-    have hC := NodeInv.upd_commit hE m ((commitOK_of_validateCommit hlog i m _ _ p hv ha).1.ext _)
+    have hC := NodeInv.upd_commit hE m ((commitOK_of_validateCommit hlog i m _ _ p hv ha.1 ha.2).1.ext _)
     exact NodeInv.upd_decided hC p.fullData ⟨agg.round, by rw [← hfd]; simp⟩
   | rc s X h0 h1 h2 h3 =>
     rw [h0] at hinv
